@@ -115,7 +115,7 @@ Lemma merged_eq G L0 L' l a :
   cmp_ok G -> lm G L0 -> lm G l -> slice l (ai_pi a) (ai_pt a) (Some (ai_ents a)) -> merged L0 L' a ->
   L' = firstn (N.to_nat (ai_pi a) + length (ai_ents a)) l.
 Proof.
-  intros C A B Sl [c [E [Hb [Hc [Ta Ag]]]]].
+  intros C A B Sl [c [E [Hb [Hc [Ta [Ag _]]]]]].
   set (pin := N.to_nat (ai_pi a)) in *.
   assert (Hpre : firstn c L0 = firstn c l).
   { destruct Ag as [Ec | [e1 [e2 [X1 [X2 [X3 X4]]]]]].
@@ -279,18 +279,24 @@ Section Inv.
     intros Hi. unfold msg_ok3. destruct (m_body m); auto. intros [i [l [A B]]]. exists i, l. split; auto.
   Qed.
 
-  Lemma ginv_step n σ G e σ' :
-    length (sy_nodes σ) = n -> ginv σ G -> lstep n bm be σ e σ' -> exists G', ginv σ' G' /\ incl G G'.
+  Definition step_sys (σ : sys) (s' : node) : sys :=
+    {| sy_nodes := put_node s' (sy_nodes σ); sy_soup := sy_soup σ ++ out_msgs s';
+       sy_cast := sy_cast σ ++ cast_of s'; sy_hist := sy_hist σ ++ hist_of s' |}.
+
+  Lemma ginv_step_rec n σ G i s ev k crashed st s' :
+    length (sy_nodes σ) = n -> ginv σ G ->
+    get_node i (sy_nodes σ) = Some s -> (forall m, ev = EDeliver m -> In m (sy_soup σ) /\ m_to m <> 0) ->
+    evok2 n ev -> evres bm be ev -> run_event_crash (settle s) ev k = Ret (crashed, st, s') ->
+    ginv (step_sys σ s') (G ++ rec_of s s').
   Proof.
-    intros Hlen GI [Hst Hres].
+    intros Hlen GI Gs Hdel Hev Hres Hrun.
+    assert (Hst : sstep2 n σ (i, ev, k) (step_sys σ s')) by (eapply SStep2; eauto).
     pose proof (g_i2 σ G GI) as I2. rewrite Hlen in I2.
     destruct (sstep2_sstep n _ _ _ Hlen I2 Hst) as [Hss [I2' Hlen']].
-    assert (Hids : map n_id (sy_nodes σ') = map n_id (sy_nodes σ)).
-    { destruct Hst. simpl. apply put_node_ids. }
-    assert (El' : Election.inv (map n_id (sy_nodes σ')) σ').
+    assert (Hids : map n_id (sy_nodes (step_sys σ s')) = map n_id (sy_nodes σ)) by (simpl; apply put_node_ids).
+    assert (El' : Election.inv (map n_id (sy_nodes (step_sys σ s'))) (step_sys σ s')).
     { rewrite Hids. eapply Election.inv_step; [apply (g_el σ G GI) | exact Hss]. }
-    clear Hss.
-    destruct Hst as [σ i s ev k crashed st s' Gs Hdel Hev Hrun]. simpl in Hres. simpl in Hids, El', I2', Hlen'.
+    clear Hss Hst. unfold step_sys in *. simpl in Hids, El', I2', Hlen'.
     destruct (step_facts _ _ _ _ _ _ Hrun) as [Hid [Hp [Hm He]]].
     destruct (get_node_in _ _ _ Gs) as [Gin Gid].
     assert (Hi : n_id s' = i) by congruence.
@@ -311,12 +317,12 @@ Section Inv.
       eapply slice_wf; eauto. eapply (g_rec_wf σ G GI); eauto. }
     pose proof (run_event_crash_lm s ev k crashed st s' (g_base σ G GI i s Gs) Hev4 Hrun) as NI.
     set (s0' := with_budget (settle s) k) in NI.
-    pose proof (v_snap _ _ _ _ _ NI) as N_snap. pose proof (v_wf _ _ _ _ _ NI) as N_wf.
-    pose proof (v_n1 _ _ _ _ _ NI) as N_n1. pose proof (v_n2 _ _ _ _ _ NI) as N_n2.
-    pose proof (v_tm _ _ _ _ _ NI) as N_tm. change (p_term (n_p s0')) with (p_term (n_p s)) in N_tm.
-    pose proof (v_rt _ _ _ _ _ NI) as N_rt. change (p_term (n_p s0')) with (p_term (n_p s)) in N_rt.
+    pose proof (v_snap _ _ _ _ _ _ _ NI) as N_snap. pose proof (v_wf _ _ _ _ _ _ _ NI) as N_wf.
+    pose proof (v_n1 _ _ _ _ _ _ _ NI) as N_n1. pose proof (v_n2 _ _ _ _ _ _ _ NI) as N_n2.
+    pose proof (v_tm _ _ _ _ _ _ _ NI) as N_tm. change (p_term (n_p s0')) with (p_term (n_p s)) in N_tm.
+    pose proof (v_rt _ _ _ _ _ _ _ NI) as N_rt. change (p_term (n_p s0')) with (p_term (n_p s)) in N_rt.
     change (n_role s0') with (n_role s) in N_rt.
-    pose proof (v_lr _ _ _ _ _ NI) as N_lr. pose proof (v_msgs _ _ _ _ _ NI) as N_msgs. pose proof (v_lead _ _ _ _ _ NI) as N_lead.
+    pose proof (v_lr _ _ _ _ _ _ _ NI) as N_lr. pose proof (v_msgs _ _ _ _ _ _ _ NI) as N_msgs. pose proof (v_lead _ _ _ _ _ _ _ NI) as N_lead.
     pose proof (g_base σ G GI i s Gs) as [B_snap [B_wf [B_n1 B_n2]]].
     set (T' := p_term (n_p s')) in *. set (L' := p_log (n_p s')) in *. set (L0 := p_log (n_p s)) in *.
     set (cond := n_role s' = Leader \/ (n_role s = Leader /\ T' = p_term (n_p s))).
@@ -354,7 +360,7 @@ Section Inv.
       unfold LR in N_lr. cbv zeta in N_lr. change (p_log (n_p s0')) with L0 in N_lr.
       change (p_term (n_p s0')) with (p_term (n_p s)) in N_lr. change (n_role s0') with (n_role s) in N_lr.
       fold L' in N_lr. fold T' in N_lr.
-      destruct N_lr as [X | [[_ [_ [c X]]] | [[_ [_ [b [Xb [X0 X]]]]] | [[Xr [Xt [new [X Xn]]]] | [_ [_ [a [Xa [Xt Xm]]]]]]]]].
+      destruct N_lr as [X | [[_ [_ [a2 [c [_ [_ [X _]]]]]]] | [[_ [_ [b [Xb [X0 X]]]]] | [[Xr [Xt [new [X Xn]]]] | [_ [_ [a [Xa [Xt Xm]]]]]]]]].
       - rewrite X. eapply lm_mono; eauto.
       - rewrite X. apply lm_firstn. eapply lm_mono; eauto.
       - assert (Eb : b = bootE).
@@ -382,7 +388,7 @@ Section Inv.
       unfold LR in N_lr. cbv zeta in N_lr. change (p_log (n_p s0')) with L0 in N_lr.
       change (p_term (n_p s0')) with (p_term (n_p s)) in N_lr. change (n_role s0') with (n_role s) in N_lr.
       fold L' in N_lr. fold T' in N_lr.
-      destruct N_lr as [X | [[_ [_ [c X]]] | [[_ [_ [b [Xb [X0 X]]]]] | [[Xr [Xt [new [X Xn]]]] | [_ [_ [a [Xa [Xt Xm]]]]]]]]].
+      destruct N_lr as [X | [[_ [_ [a2 [c [_ [_ [X _]]]]]]] | [[_ [_ [b [Xb [X0 X]]]]] | [[Xr [Xt [new [X Xn]]]] | [_ [_ [a [Xa [Xt Xm]]]]]]]]].
       - rewrite X. auto.
       - rewrite X. split; [apply tbound_firstn | apply tmono_firstn]; auto.
       - assert (Eb : b = bootE).
@@ -406,7 +412,7 @@ Section Inv.
         destruct (g_tb_rec σ G GI _ _ _ Rin) as [TBl TMl].
         split; [apply tbound_firstn | apply tmono_firstn]; auto.
         rewrite Xt, Ea. simpl. exact TBl. }
-    exists G'. split; [| exact HG]. constructor; simpl.
+    constructor; simpl.
     - exact El'.
     - rewrite Hlen'. exact I2'.
     - intros j x Hx. destruct (Gcase j x Hx) as [[_ E] | [_ E]]; [subst x | eapply (g_base σ G GI); eauto].
@@ -470,6 +476,14 @@ Section Inv.
     - intros j x Hx. destruct (Gcase j x Hx) as [[_ E] | [_ E]].
       + subst x. exact TBs'.
       + eapply (g_tb_node σ G GI); eauto.
+  Qed.
+
+  Lemma ginv_step n σ G e σ' :
+    length (sy_nodes σ) = n -> ginv σ G -> lstep n bm be σ e σ' -> exists G', ginv σ' G' /\ incl G G'.
+  Proof.
+    intros Hlen GI [Hst Hres]. destruct Hst as [σ i s ev k crashed st s' Gs Hdel Hev Hrun]. simpl in Hres.
+    exists (G ++ rec_of s s'). split; [| intros r Hr; apply in_or_app; left; exact Hr].
+    apply (ginv_step_rec n σ G i s ev k crashed st s' Hlen GI Gs Hdel Hev Hres Hrun).
   Qed.
 End Inv.
 
